@@ -168,8 +168,9 @@ let handle toks =
            let ps = pairs n r in
            let start_of z = z_of_int (try List.assoc (int_of_z z) ps with Not_found -> 0) in
            let data = List.map (fun (a, _) -> z_of_int a) ps in
-           Printf.sprintf "def %s | read %s" (join (List.map int_of_z (define_run_order start_of data)))
+           Printf.sprintf "def %s | read %s | chain %s" (join (List.map int_of_z (define_run_order start_of data)))
              (join (List.map int_of_z (sub_run_spec start_of data)))
+             (join (List.map int_of_z (chained_spec start_of data)))
        | _ -> "BAD")
   | "canon" :: rest ->
       (match ints rest with
